@@ -21,6 +21,11 @@ var registry = map[string]func(c *Ctx){}
 
 func register(id string, f func(c *Ctx)) { registry[id] = f }
 
+// extras: additional rule groups per property (added when seeded changes showed a gap)
+var extras = map[string][]func(c *Ctx){}
+
+func registerExtra(id string, f func(c *Ctx)) { extras[id] = append(extras[id], f) }
+
 func main() {
 	prop := flag.String("property", "", "property id (C01..C20) or 'all'")
 	tier := flag.String("tier", "quick", "quick|thorough")
@@ -92,6 +97,9 @@ func main() {
 				}
 			}()
 			run(c)
+			for _, ex := range extras[id] {
+				ex(c)
+			}
 		}()
 		if p.ssa != nil {
 			loadInfo["ssa_functions"] = p.ssa.nfuncs
